@@ -35,6 +35,12 @@ type recIter struct {
 	wants, ctls string
 	round       int
 	events      []loopEvent
+	// native look-up of every reported key (histories, op_loophist.go): the collection the path denotes, reached
+	// by reflection before the call; the key text reported in the current round; has a look-up failed
+	coll     reflect.Value
+	lookup   bool
+	pending  *string
+	lookFail bool
 }
 
 func (r *recIter) want() bool {
@@ -77,6 +83,15 @@ func (r *recIter) SetKey(val any, ins inspector.Inspector) {
 			e.keyText, e.keyOK = *x, true
 		}
 	}
+	if r.lookup {
+		r.pending = nil
+		if e.keyOK {
+			t := e.keyText
+			r.pending = &t
+		} else {
+			r.lookFail = true
+		}
+	}
 	r.events = append(r.events, e)
 }
 
@@ -109,7 +124,14 @@ func readable(val any, ins inspector.Inspector) (res string) {
 
 func (r *recIter) SetVal(val any, ins inspector.Inspector) {
 	rv := reflect.ValueOf(val)
-	r.events = append(r.events, loopEvent{kind: 'V', ins: insName(ins), deref: DumpDeref(rv), raw: Dump(rv), rd: readable(val, ins)})
+	e := loopEvent{kind: 'V', ins: insName(ins), deref: DumpDeref(rv), raw: Dump(rv), rd: readable(val, ins)}
+	if r.lookup && r.pending != nil {
+		if !keyDenotes(r.coll, *r.pending, e.deref) {
+			r.lookFail = true
+		}
+		r.pending = nil
+	}
+	r.events = append(r.events, e)
 }
 
 func (r *recIter) Iterate() inspector.LoopCtl {
@@ -123,6 +145,7 @@ func (r *recIter) Iterate() inspector.LoopCtl {
 		}
 	}
 	r.round++
+	r.pending = nil
 	r.events = append(r.events, loopEvent{kind: 'I', ctl: c})
 	return c
 }
@@ -268,14 +291,33 @@ func subMultiset(a, b []string) bool {
 // ops below.  args = <canon>;<wants>;<ctls>;<path>.  The buffer belongs to the caller: a sequence of reads may hand
 // the same one to every call (op_seq.go).
 func loopObs(ins inspector.Inspector, a any, buf *[]byte, raw bool, args []string) string {
+	obs, _ := loopObsLook(ins, a, buf, raw, args, false)
+	return obs
+}
+
+// loopObsLook: the same; with look every key text the iterator is handed is looked up NATIVELY (reflection) in the
+// collection the path denotes in the argument, at the moment the element comes (SetVal): ok = every reported key
+// is the key of an element of that collection and that element is what was handed over with it.
+func loopObsLook(ins inspector.Inspector, a any, buf *[]byte, raw bool, args []string, look bool) (obs string, ok bool) {
 	canon, wants, ctls, path := args[0], args[1], args[2], Path(args[3])
+	it := &recIter{wants: wants, ctls: ctls}
+	if look {
+		it.lookup = true
+		if c, found := NavNative(reflect.ValueOf(a), path); found {
+			it.coll = c
+		}
+	}
+	err := ins.Loop(a, it, buf, path...)
+	obs = loopText(ins, a, it, err, canon, wants, path, raw)
+	return obs, !it.lookFail
+}
+
+func loopText(ins inspector.Inspector, a any, it *recIter, err error, canon, wants string, path []string, raw bool) string {
 	sorted := strings.HasPrefix(canon, "s")
 	kind := ""
 	if sorted && len(canon) > 2 {
 		kind = canon[2:]
 	}
-	it := &recIter{wants: wants, ctls: ctls}
-	err := ins.Loop(a, it, buf, path...)
 	head := "e=" + ErrName(err) + ";"
 	if raw {
 		rs := roundsOf(it.events, kind, true, true)
